@@ -1208,6 +1208,8 @@ def language_from_str(language_def, metamodel, file_name):
     # Check the cache for already conctructed textX parser
     if metamodel.debug in textX_parsers:
         parser = textX_parsers[metamodel.debug]
+        # The cached parser reports to the current meta-model's debug file.
+        parser.file = metamodel.file
     else:
         # Create parser for TextX grammars using
         # the arpeggio grammar specified in this module
